@@ -674,6 +674,21 @@ M('C01', 'binary merge swaps operands (seed)', NPC,
   'data.append(func(bdata[j], np.zeros_like(bdata[j])))', 'SIDES-binary')
 M('C01', 'add_leg inserts label at wrong axis', NPC, '        labels.insert(axis, label)\n',
   '        labels.insert(0, label)\n', 'AXIS-insert')
+M('C07', 'canonical form: S stored before normalisation', MPS,
+  """            S = S / np.linalg.norm(S)  # normalize
+            self.set_SL(i, S)""",
+  """            self.set_SL(i, S)
+            S = S / np.linalg.norm(S)  # normalize""", 'FORM-canonical')
+M('C07', 'canonical form: norm always tracked', MPS,
+  "        if not renormalize:\n            self.norm = self.norm * np.linalg.norm(S)",
+  "        if renormalize:\n            self.norm = self.norm * np.linalg.norm(S)", 'FORM-canonical')
+M('C07', 'get_theta uses the left exponent of the previous site', MPS,
+  "            _, old_fR = self.form[self._to_valid_site_index(i + k)]", "            old_fR, _ = self.form[self._to_valid_site_index(i + k)]",
+  'FORM-canonical')
+M('C07', 'entropy from unsquared singular values', MPS, "res.append(entropy(s**2, n))", "res.append(entropy(s, n))",
+  'FORM-canonical')
+M('C07', 'entropy reads the bond right of site ib', MPS, "                s = self.get_SL(ib)", "                s = self.get_SR(ib)",
+  'FORM-canonical')
 M('C07', 'get_theta n=1 ignores the requested form (original defect)', MPS,
   "return self.get_B(i, (formL, formR), True, cutoff, '0')", "return self.get_B(i, (1.0, 1.0), True, cutoff, '0')",
   'PARAM-dropped')
